@@ -47,6 +47,9 @@ type concReport struct {
 	TraceEvents int64 `json:"trace_events,omitempty"`
 	// small pubsub scenarios: every goroutine's whole event sequence, judged again by the Lean automaton PSC.TA.ok (driver engine PST)
 	Traces map[string]string `json:"traces,omitempty"`
+	// pubsub-stall: the observed history (confirmations, stall / resume / close of the slow subscriber, PUBLISH written / answered, final holdings), judged by the
+	// Lean model PSS (Conc/PubSubSlow.lean) through the driver engine PSH
+	Hist string `json:"hist,omitempty"`
 }
 
 func runCmd(mgr *server.Manager, argv ...string) (out string, panicked bool) {
